@@ -29,6 +29,7 @@ import (
 	"github.com/ChainSafe/gossamer/internal/database"
 	"github.com/ChainSafe/gossamer/lib/common"
 	"github.com/ChainSafe/gossamer/lib/genesis"
+	rtstorage "github.com/ChainSafe/gossamer/lib/runtime/storage"
 	"github.com/ChainSafe/gossamer/pkg/scale"
 	inmemory_trie "github.com/ChainSafe/gossamer/pkg/trie/inmemory"
 	"github.com/ChainSafe/gossamer/zz_verif/vcommon"
@@ -74,6 +75,9 @@ type vc36Plan struct {
 	EpochLen    uint64          `json:"epoch_len"`
 	Blocks      []vc36BlockPlan `json:"blocks"`
 	Steps       []vc36Step      `json:"steps"`
+	// Pairs "all": the two-phase family (crash k, restart, continue, crash j, restart) of this scenario is
+	// enumerated completely in every tier; otherwise it is sampled (see vc36PairBudget).
+	Pairs string `json:"pairs,omitempty"`
 }
 
 func (p *vc36Plan) number(i int) uint {
@@ -133,13 +137,13 @@ func vc36FixedPlans() []*vc36Plan {
 	var out []*vc36Plan
 
 	// F0: one block announcing a scheduled change with delay 0, finalised.
-	p := &vc36Plan{Name: "min-scheduled", Backend: "map", GenesisAuth: 1, GenesisKeys: 2, EpochLen: 10, Blocks: vc36Chain(1)}
+	p := &vc36Plan{Name: "min-scheduled", Backend: "map", GenesisAuth: 1, GenesisKeys: 2, EpochLen: 10, Blocks: vc36Chain(1), Pairs: "all"}
 	p.Blocks[0].Sched = &vc36Change{Delay: 0, NAuth: 2}
 	p.Steps = []vc36Step{{Kind: "import", Block: 0}, {Kind: "finalise", Block: 0}}
 	out = append(out, p)
 
 	// F1: one block announcing a forced change with delay 0 (applied at import), finalised.
-	p = &vc36Plan{Name: "min-forced", Backend: "map", GenesisAuth: 1, GenesisKeys: 2, EpochLen: 10, Blocks: vc36Chain(1)}
+	p = &vc36Plan{Name: "min-forced", Backend: "map", GenesisAuth: 1, GenesisKeys: 2, EpochLen: 10, Blocks: vc36Chain(1), Pairs: "all"}
 	p.Blocks[0].Forced = &vc36Change{Delay: 0, NAuth: 2}
 	p.Steps = []vc36Step{{Kind: "import", Block: 0}, {Kind: "finalise", Block: 0}}
 	out = append(out, p)
@@ -148,6 +152,9 @@ func vc36FixedPlans() []*vc36Plan {
 	// finalised, forced change (b3, delay 1) applied at the import of b4, epoch data digests, finalise twice more.
 	mk := func(name, backend string) *vc36Plan {
 		p := &vc36Plan{Name: name, Backend: backend, GenesisAuth: 3, GenesisKeys: 6, EpochLen: 2, Blocks: vc36Chain(5)}
+		if backend == "map" {
+			p.Pairs = "all-thorough"
+		}
 		p.Blocks = append(p.Blocks,
 			vc36BlockPlan{Parent: 0, Puts: 2, Dels: 1, Exts: 1}, // 5: fork at height 2
 			vc36BlockPlan{Parent: 5, Puts: 1, Exts: 0})          // 6: fork at height 3
@@ -171,7 +178,7 @@ func vc36FixedPlans() []*vc36Plan {
 	out = append(out, mk("fork-sched-forced", "map"))
 
 	// F3: two scheduled changes one after the other, finalisation jumps over several blocks at once.
-	p = &vc36Plan{Name: "two-scheduled-jump", Backend: "map", GenesisAuth: 2, GenesisKeys: 4, EpochLen: 3, Blocks: vc36Chain(6)}
+	p = &vc36Plan{Name: "two-scheduled-jump", Backend: "map", GenesisAuth: 2, GenesisKeys: 4, EpochLen: 3, Blocks: vc36Chain(6), Pairs: "all-thorough"}
 	p.Blocks = append(p.Blocks, vc36BlockPlan{Parent: 2, Puts: 2, Exts: 2}) // 6: fork at height 4
 	p.Blocks[0].NextEpoch = true
 	p.Blocks[0].Sched = &vc36Change{Delay: 0, NAuth: 1}
@@ -190,7 +197,7 @@ func vc36FixedPlans() []*vc36Plan {
 	out = append(out, mk("fork-sched-forced-pebble", "pebble"))
 
 	// F5: forced change with a delay while a scheduled change is pending on a fork.
-	p = &vc36Plan{Name: "forced-delay-fork-sched", Backend: "map", GenesisAuth: 2, GenesisKeys: 3, EpochLen: 4, Blocks: vc36Chain(4)}
+	p = &vc36Plan{Name: "forced-delay-fork-sched", Backend: "map", GenesisAuth: 2, GenesisKeys: 3, EpochLen: 4, Blocks: vc36Chain(4), Pairs: "all-thorough"}
 	p.Blocks = append(p.Blocks, vc36BlockPlan{Parent: 0, Puts: 2, Exts: 1, Sched: &vc36Change{Delay: 5, NAuth: 2}}) // 4: fork
 	p.Blocks[0].NextEpoch = true
 	p.Blocks[1].Forced = &vc36Change{Delay: 2, NAuth: 3}
@@ -204,7 +211,7 @@ func vc36FixedPlans() []*vc36Plan {
 
 	// F6: the finalisation digest handler lags one step behind (its writes interleave with the next import /
 	// finalisation), scheduled change delay 0 on b0 and forced change delay 0 on b2.
-	p = &vc36Plan{Name: "deferred-digest-handler", Backend: "map", GenesisAuth: 2, GenesisKeys: 3, EpochLen: 2, Blocks: vc36Chain(4)}
+	p = &vc36Plan{Name: "deferred-digest-handler", Backend: "map", GenesisAuth: 2, GenesisKeys: 3, EpochLen: 2, Blocks: vc36Chain(4), Pairs: "all-thorough"}
 	p.Blocks[0].NextEpoch = true
 	p.Blocks[0].Sched = &vc36Change{Delay: 0, NAuth: 3}
 	p.Blocks[2].NextEpoch = true
@@ -214,6 +221,17 @@ func vc36FixedPlans() []*vc36Plan {
 		{Kind: "import", Block: 1}, {Kind: "finalise", Block: 1, Defer: true},
 		{Kind: "import", Block: 2}, {Kind: "import", Block: 3},
 		{Kind: "finalise", Block: 3, Defer: true},
+	}
+	out = append(out, p)
+
+	// F7: the minimal shape of "a re-finalisation meets what a half-done finalisation left behind": three blocks,
+	// one finalisation jumping over all of them (three header/body/arrival-time groups, then the number index
+	// batch, then the two head pointers), one more block finalised dot/sync style.  Every (k, j) pair is enumerated.
+	p = &vc36Plan{Name: "jump-refinalise", Backend: "map", GenesisAuth: 2, GenesisKeys: 3, EpochLen: 10, Blocks: vc36Chain(4), Pairs: "all"}
+	p.Steps = []vc36Step{
+		{Kind: "import", Block: 0}, {Kind: "import", Block: 1}, {Kind: "import", Block: 2},
+		{Kind: "finalise", Block: 2},
+		{Kind: "import", Block: 3}, {Kind: "finalise", Block: 3, Sync: true},
 	}
 	out = append(out, p)
 	return out
@@ -312,11 +330,15 @@ type vc36Block struct {
 	idx       int // plan index, -1 = genesis
 	number    uint
 	header    *types.Header
+	body      *types.Body
 	hash      common.Hash
 	headerEnc []byte
 	bodyEnc   []byte
 	state     *vcommon.OrdMap
-	imported  bool
+	// the storage changes of the block relative to its parent, in the order they were applied (a re-import after
+	// a restart replays them on the parent's state)
+	dels [][]byte
+	puts [][2][]byte
 }
 
 type vc36Quiescent struct {
@@ -353,6 +375,25 @@ type vc36Run struct {
 	finHead          *vc36Block
 	pendingHandler   []*vc36Block // finalised blocks whose digest handler run is deferred
 	truncated        bool         // the live run stopped early (a driving call failed)
+
+	// have: plan index -> the running node knows the block (imported in this process, or on the finalised chain
+	// it restarted from).  Unfinalised blocks live in memory only, so this is per process, not per scenario.
+	have map[int]bool
+	// phase2: this run is the continuation of the scenario on a node restarted from a crash prefix of the first
+	// run (blocks, byHash, genesis, cfg are shared with it; counters get the prefix "cont_")
+	phase2    bool
+	contSteps []string // what the continuation did / skipped, for witnesses
+}
+
+func (run *vc36Run) count(name string, n int) {
+	if run.phase2 {
+		name = "cont_" + name
+	}
+	run.c.Count(name, n)
+}
+
+func (run *vc36Run) known(b *vc36Block) bool {
+	return b != nil && (b.idx < 0 || run.have[b.idx])
 }
 
 var vc36KeyAlphabet = []byte{0x00, 0x01, 0x10, 0x11, 0xab, 0xff}
@@ -479,10 +520,11 @@ func (run *vc36Run) init(r *vcommon.Rand) error {
 		return err
 	}
 	benc, _ := scale.Marshal(*types.NewBody([]types.Extrinsic{}))
-	run.genesis = &vc36Block{idx: -1, number: 0, header: header, hash: header.Hash(), headerEnc: henc, bodyEnc: benc, state: model, imported: true}
+	run.genesis = &vc36Block{idx: -1, number: 0, header: header, hash: header.Hash(), headerEnc: henc, bodyEnc: benc, state: model}
 	run.byHash = map[common.Hash]*vc36Block{run.genesis.hash: run.genesis}
 	run.blocks = make([]*vc36Block, len(p.Blocks))
 	run.authBySet = map[uint64][]byte{}
+	run.have = map[int]bool{}
 	run.finHead = run.genesis
 	run.quiescent("init")
 	return nil
@@ -497,11 +539,11 @@ func (run *vc36Run) quiescent(after string) {
 		cur = run.quies[len(run.quies)-1].curSetID
 	}
 	if id, err := run.svc.Grandpa.GetCurrentSetID(); err != nil {
-		run.c.Count("live_read_error_current_set_id", 1)
+		run.count("live_read_error_current_set_id", 1)
 	} else {
 		cur = id
 		if auths, err := run.svc.Grandpa.GetAuthorities(cur); err != nil {
-			run.c.Count("live_read_error_authorities", 1)
+			run.count("live_read_error_authorities", 1)
 		} else if enc, err := types.EncodeGrandpaVoters(auths); err == nil {
 			if _, seen := run.authBySet[cur]; !seen {
 				run.authBySet[cur] = enc
@@ -511,10 +553,10 @@ func (run *vc36Run) quiescent(after string) {
 	round, setID, err := bs.GetHighestRoundAndSetID()
 	head, err2 := bs.GetHighestFinalisedHeader()
 	if err != nil || err2 != nil {
-		run.c.Count("live_read_error_finalised_head", 1)
+		run.count("live_read_error_finalised_head", 1)
 	} else if round != run.finRound || setID != run.finSet || head.Hash() != run.finHead.hash {
 		// the running node itself does not report what the script just finalised
-		run.c.Count("live_finalised_head_differs_from_script", 1)
+		run.count("live_finalised_head_differs_from_script", 1)
 	}
 	run.quies = append(run.quies, vc36Quiescent{
 		at: run.rec.n(), after: after, round: run.finRound, setID: run.finSet,
@@ -537,21 +579,13 @@ func vc36ConsensusDigest(engine types.ConsensusEngineID, vdt any) (types.Consens
 	return types.ConsensusDigest{ConsensusEngineID: engine, Data: enc}, nil
 }
 
-// importBlock builds block i on its parent's state and imports it the way dot/core does.
-func (run *vc36Run) importBlock(i int, r *vcommon.Rand) {
+// buildBlock draws the contents of block i (storage changes on the parent's state ts, digests, extrinsics) from
+// the case PRNG and registers the block with the scenario.  It returns nil after setting run.liveErr.
+func (run *vc36Run) buildBlock(i int, parent *vc36Block, ts *rtstorage.TrieState, r *vcommon.Rand) *vc36Block {
 	c, s, bp := run.c, run.svc, run.plan.Blocks[i]
-	parent := run.parentOf(i)
-	if parent == nil || !parent.imported {
-		run.liveErr = fmt.Sprintf("plan error: block %d imported before its parent", i)
-		return
-	}
 	number := parent.number + 1
-
-	ts, err := s.Storage.TrieState(&parent.header.StateRoot)
-	if err != nil {
-		run.liveErr = fmt.Sprintf("live TrieState(parent of %d): %v", i, err)
-		return
-	}
+	var dels [][]byte
+	var puts [][2][]byte
 	model := parent.state.Clone()
 	for j := 0; j < bp.Dels && model.Len() > 1; j++ {
 		k := vcommon.Pick(r, model.Keys())
@@ -561,17 +595,19 @@ func (run *vc36Run) importBlock(i int, r *vcommon.Rand) {
 		k = append([]byte{}, k...)
 		if err := ts.Delete(k); err != nil {
 			run.liveErr = "live TrieState.Delete: " + err.Error()
-			return
+			return nil
 		}
 		model.Delete(k)
+		dels = append(dels, k)
 	}
 	for j := 0; j < bp.Puts; j++ {
 		k, v := vc36Key(r), vc36Value(r)
 		if err := ts.Put(k, v); err != nil {
 			run.liveErr = "live TrieState.Put: " + err.Error()
-			return
+			return nil
 		}
 		model.Put(k, v)
+		puts = append(puts, [2][]byte{k, v})
 	}
 	root := ts.Trie().MustHash()
 	if spec := vcommon.SpecRoot(model, 0); common.Hash(spec) == root {
@@ -584,7 +620,7 @@ func (run *vc36Run) importBlock(i int, r *vcommon.Rand) {
 	pre, err := types.NewBabeSecondaryPlainPreDigest(uint32(i+1), 1000+uint64(number)).ToPreRuntimeDigest()
 	if err != nil {
 		run.liveErr = "predigest: " + err.Error()
-		return
+		return nil
 	}
 	_ = dg.Add(*pre)
 	if bp.NextEpoch {
@@ -600,7 +636,7 @@ func (run *vc36Run) importBlock(i int, r *vcommon.Rand) {
 		cd, err := vc36ConsensusDigest(types.BabeEngineID, v)
 		if err != nil {
 			run.liveErr = "next epoch digest: " + err.Error()
-			return
+			return nil
 		}
 		_ = dg.Add(cd)
 	}
@@ -612,7 +648,7 @@ func (run *vc36Run) importBlock(i int, r *vcommon.Rand) {
 		cd, err := vc36ConsensusDigest(types.BabeEngineID, v)
 		if err != nil {
 			run.liveErr = "next config digest: " + err.Error()
-			return
+			return nil
 		}
 		_ = dg.Add(cd)
 	}
@@ -622,7 +658,7 @@ func (run *vc36Run) importBlock(i int, r *vcommon.Rand) {
 		cd, err := vc36ConsensusDigest(types.GrandpaEngineID, v)
 		if err != nil {
 			run.liveErr = "scheduled change digest: " + err.Error()
-			return
+			return nil
 		}
 		_ = dg.Add(cd)
 	}
@@ -630,14 +666,14 @@ func (run *vc36Run) importBlock(i int, r *vcommon.Rand) {
 		fin, err := s.Block.GetHighestFinalisedHeader()
 		if err != nil {
 			run.liveErr = "live GetHighestFinalisedHeader: " + err.Error()
-			return
+			return nil
 		}
 		v := types.NewGrandpaConsensusDigest()
 		_ = v.SetValue(types.GrandpaForcedChange{BestFinalizedBlock: uint32(fin.Number), Auths: vc36Voters(r, bp.Forced.NAuth), Delay: bp.Forced.Delay})
 		cd, err := vc36ConsensusDigest(types.GrandpaEngineID, v)
 		if err != nil {
 			run.liveErr = "forced change digest: " + err.Error()
-			return
+			return nil
 		}
 		_ = dg.Add(cd)
 	}
@@ -650,21 +686,73 @@ func (run *vc36Run) importBlock(i int, r *vcommon.Rand) {
 	var extRoot common.Hash
 	copy(extRoot[:], r.Bytes(32))
 	header := types.NewHeader(parent.hash, root, extRoot, number, dg)
-	block := &types.Block{Header: *header, Body: *body}
 
 	henc, err := scale.Marshal(*header)
 	if err != nil {
 		run.liveErr = "encode header: " + err.Error()
-		return
+		return nil
 	}
 	benc, err := scale.Marshal(*body)
 	if err != nil {
 		run.liveErr = "encode body: " + err.Error()
-		return
+		return nil
 	}
-	b := &vc36Block{idx: i, number: number, header: header, hash: header.Hash(), headerEnc: henc, bodyEnc: benc, state: model}
+	b := &vc36Block{idx: i, number: number, header: header, body: body, hash: header.Hash(), headerEnc: henc, bodyEnc: benc,
+		state: model, dels: dels, puts: puts}
 	run.blocks[i] = b
 	run.byHash[b.hash] = b
+	return b
+}
+
+// importBlock imports block i the way dot/core does.  The first time (run.blocks[i] == nil) the block is built on
+// its parent's state from the case PRNG; a later import of the same block (the continuation of the scenario on a
+// restarted node, where the unfinalised blocks of the first process are gone) replays the recorded block.
+func (run *vc36Run) importBlock(i int, r *vcommon.Rand) {
+	s, bp := run.svc, run.plan.Blocks[i]
+	parent := run.parentOf(i)
+	if !run.known(parent) {
+		run.liveErr = fmt.Sprintf("plan error: block %d imported before its parent", i)
+		return
+	}
+
+	ts, err := s.Storage.TrieState(&parent.header.StateRoot)
+	if err != nil {
+		run.liveErr = fmt.Sprintf("live TrieState(parent of %d): %v", i, err)
+		return
+	}
+	b := run.blocks[i]
+	if b != nil {
+		// --- replay of an already built block
+		for _, k := range b.dels {
+			if err := ts.Delete(k); err != nil {
+				run.liveErr = "live TrieState.Delete: " + err.Error()
+				return
+			}
+		}
+		for _, kv := range b.puts {
+			if err := ts.Put(kv[0], kv[1]); err != nil {
+				run.liveErr = "live TrieState.Put: " + err.Error()
+				return
+			}
+		}
+		if root := ts.Trie().MustHash(); root != b.header.StateRoot {
+			run.liveErr = fmt.Sprintf("re-import of block %d: executing it on the parent state gives root %s, header says %s", i, root, b.header.StateRoot)
+			return
+		}
+		if has, _ := s.Block.HasHeaderInDatabase(b.hash); has {
+			// a crash inside an earlier finalisation left the header of this (not finalised) block behind;
+			// dot/sync's blockImporter.importBlock would skip such a block (observed only)
+			run.count("reimport_header_already_in_database", 1)
+		}
+		run.count("blocks_reimported", 1)
+	} else {
+		b = run.buildBlock(i, parent, ts, r)
+		if b == nil {
+			return
+		}
+	}
+	header := b.header
+	block := &types.Block{Header: *header, Body: *b.body}
 
 	setBefore, _ := s.Grandpa.GetCurrentSetID()
 
@@ -685,35 +773,35 @@ func (run *vc36Run) importBlock(i int, r *vcommon.Rand) {
 	end()
 	if err != nil {
 		// the node fails the import here (block stays in the block tree); keep going like the next import would
-		c.Count("live_handle_digests_error", 1)
-		c.Count("live_handle_digests_error/"+vc36ErrClass(err), 1)
+		run.count("live_handle_digests_error", 1)
+		run.count("live_handle_digests_error/"+vc36ErrClass(err), 1)
 	} else {
 		end = run.rec.span("apply_forced")
 		err = s.Grandpa.ApplyForcedChanges(header)
 		end()
 		if err != nil {
-			c.Count("live_apply_forced_error", 1)
-			c.Count("live_apply_forced_error/"+vc36ErrClass(err), 1)
+			run.count("live_apply_forced_error", 1)
+			run.count("live_apply_forced_error/"+vc36ErrClass(err), 1)
 		}
 	}
 	// --- end of handleBlock (runtime / code substitution handling writes nothing here)
-	b.imported = true
-	for j, o := range run.blocks {
-		if j != i && o != nil && o.imported && run.plan.Blocks[j].Parent == bp.Parent {
-			c.Count("fork_points_imported", 1) // a sibling of an already imported block
+	run.have[i] = true
+	for j := range run.blocks {
+		if j != i && run.have[j] && run.plan.Blocks[j].Parent == bp.Parent {
+			run.count("fork_points_imported", 1) // a sibling of an already imported block
 			break
 		}
 	}
-	c.Count("blocks_imported", 1)
+	run.count("blocks_imported", 1)
 	if setAfter, _ := s.Grandpa.GetCurrentSetID(); setAfter != setBefore {
-		c.Count("set_changes_forced_applied", 1)
+		run.count("set_changes_forced_applied", 1)
 	}
 }
 
 func (run *vc36Run) finalise(i int, syncStyle, deferHandler bool, r *vcommon.Rand) {
-	c, s := run.c, run.svc
+	s := run.svc
 	b := run.blocks[i]
-	if b == nil || !b.imported {
+	if !run.known(b) {
 		run.liveErr = fmt.Sprintf("plan error: finalise of block %d before its import", i)
 		return
 	}
@@ -767,11 +855,11 @@ func (run *vc36Run) finalise(i int, syncStyle, deferHandler bool, r *vcommon.Ran
 		return
 	}
 	end()
-	c.Count("finalisations", 1)
+	run.count("finalisations", 1)
 	run.finRound, run.finSet, run.finHead = round, setID, b
 	if deferHandler {
 		run.pendingHandler = append(run.pendingHandler, b)
-		c.Count("digest_handler_runs_deferred", 1)
+		run.count("digest_handler_runs_deferred", 1)
 		return
 	}
 	run.digestHandler(b)
@@ -796,25 +884,25 @@ func vc36ErrClass(err error) string {
 // digestHandler is the body of dot/digest Handler.handleBlockFinalisation for one
 // finalisation notification (errors are only logged there).
 func (run *vc36Run) digestHandler(b *vc36Block) {
-	c, s := run.c, run.svc
+	s := run.svc
 	setID, _ := s.Grandpa.GetCurrentSetID()
 	endE := run.rec.span("finalize_epoch_data")
 	if err := s.Epoch.FinalizeBABENextEpochData(b.header); err != nil {
-		c.Count("live_finalize_next_epoch_error", 1)
+		run.count("live_finalize_next_epoch_error", 1)
 	}
 	if err := s.Epoch.FinalizeBABENextConfigData(b.header); err != nil {
-		c.Count("live_finalize_next_config_error", 1)
+		run.count("live_finalize_next_config_error", 1)
 	}
 	endE()
 	endS := run.rec.span("apply_scheduled")
 	err := s.Grandpa.ApplyScheduledChanges(b.header)
 	endS()
 	if err != nil {
-		c.Count("live_apply_scheduled_error", 1)
-		c.Count("live_apply_scheduled_error/"+vc36ErrClass(err), 1)
+		run.count("live_apply_scheduled_error", 1)
+		run.count("live_apply_scheduled_error/"+vc36ErrClass(err), 1)
 	}
 	if setAfter, _ := s.Grandpa.GetCurrentSetID(); setAfter != setID {
-		c.Count("set_changes_scheduled_applied", 1)
+		run.count("set_changes_scheduled_applied", 1)
 	}
 }
 
